@@ -213,7 +213,7 @@ type c20Mut struct {
 var c20Bad = map[string][]string{
 	"version":        {"1.0.2", "1.0.4", "2", "1.0", "\"\"", "1.0.3.1"},
 	"addr":           {"256.1.1.1", "\"not a host\"", "\"a b\"", "\"::gg\"", "-", "\"127.0.0.8:8805\""},
-	"nodeID":         {"\"no such host.invalid.\"", "\"a b\"", "\"256.256.256.256\"", "\"::gg\""},
+	"nodeID":         {"\"no such host.invalid.\"", "\"a b\"", "\"256.256.256.256\"", "\"::gg\"", "\"::1\"", "\"2001:db8::8805\"", "\"fe80::1\"", "nosuchhost.invalid"},
 	"retransTimeout": {"0", "0s", "-1s", "abc", "1.5", "1x"},
 	"maxRetrans":     {"300", "-1", "abc", "256", "1.5"},
 	"forwarder":      {"dpdk", "GTP5G", "gtp5g2", "\"\""},
@@ -307,6 +307,11 @@ func predicate(d *yn) string {
 	}
 	if a, ok := scalarText(p.m["nodeID"]); !ok || !hostish(a) {
 		return "no usable node id"
+	} else if ip := net.ParseIP(a); ip != nil && ip.To4() == nil {
+		// the node id and the F-SEID this UPF announces are IPv4: an IPv6 literal resolves to no IPv4 address
+		return "node id is an IPv6 literal (resolves to no IPv4 address)"
+	} else if strings.HasSuffix(strings.TrimSuffix(a, "."), ".invalid") {
+		return "node id is a name under .invalid, which never resolves (RFC 6761)"
 	}
 	rt, ok := scalarText(p.m["retransTimeout"])
 	if !ok {
